@@ -42,6 +42,14 @@ def children(n):
     return out
 
 
+def _recv(n, R):
+    """A range literal in receiver position is parenthesised: `(a..b).len()`, not `a..b.len()`."""
+    p = peel(n)
+    if p.get("k") == "struct" and "ops::Range" in ((p.get("res") or {}).get("path") or ""):
+        return "(%s)" % R(n)
+    return R(n)
+
+
 def walk(n, parents=None):
     """Pre-order traversal yielding (node, parents-tuple)."""
     if parents is None:
@@ -312,7 +320,7 @@ def render(n, depth=0):
         if n["name"] in ("to_owned", "into", "to_string") and not n["args"] and strip_generics(n.get("ty") or "") == "std::string::String" \
                 and (peel(n["recv"]).get("aty") or peel(n["recv"]).get("ty") or "").replace("&", "").replace("mut ", "").strip() in ("str", "std::string::String"):
             return "%s.to_string()" % R(n["recv"])
-        return "%s.%s(%s)" % (R(n["recv"]), n["name"], ", ".join(R(a) for a in n["args"]))
+        return "%s.%s(%s)" % (_recv(n["recv"], R), n["name"], ", ".join(R(a) for a in n["args"]))
     if k == "binary":
         return "(%s %s %s)" % (R(n["l"]), n["op"], R(n["r"]))
     if k == "unary":
@@ -369,7 +377,7 @@ def render(n, depth=0):
     if k == "assign_op":
         return "%s %s %s" % (R(n["l"]), n["op"], R(n["r"]))
     if k == "field":
-        return "%s.%s" % (R(n["base"]), n["name"])
+        return "%s.%s" % (_recv(n["base"], R), n["name"])
     if k == "index":
         return "%s[%s]" % (R(n["base"]), R(n["idx"]))
     if k == "addr_of":
